@@ -178,6 +178,12 @@ def gen_edit_text(rng, tree, path, classes):
     return new
 
 
+def _ign(path):
+    from .model import is_ignored_path
+
+    return is_ignored_path(path)
+
+
 def _fresh_name(rng, tree, parent, candidates, suffix=""):
     for _ in range(8):
         n = rng.choice(candidates) + suffix
@@ -193,7 +199,8 @@ def gen_op(rng, tree: TreeModel, classes, swarm, recent=None):
     kinds = ["edit"] * 5 + ["mkdir"] * 2 + ["mkfile"] * 2 + ["move"] * 3
     if swarm.get("removals"):
         kinds += ["remove"] * 2
-    files = tree.file_paths()
+    # ignored files are only touched by the dedicated ignored-only / mixed change sets
+    files = [p for p in tree.file_paths() if not _ign(p)]
     dirs = tree.dirs()
     if files and rng.random() < swarm.get("bytes_p", 0.0):
         # contents handed over as already-encoded bytes (written verbatim)
@@ -329,6 +336,16 @@ def gen_changeset(rng, tree: TreeModel, classes, swarm, ident, max_ops=None, all
             op = gen_op(rng, t, cls, swarm, recent)
         if op[0] != "set" and rng.random() < swarm.get("nest_p", 0.12):
             op = ["set", "nested%d" % i, [op]]
+            if rng.random() < 0.5:
+                # a second sub-change inside the same nested set
+                t2 = t.copy()
+                try:
+                    t2.apply(op)
+                    extra = gen_op(rng, t2, cls, swarm, recent)
+                    t2.apply(extra)
+                    op[2].append(extra)
+                except ModelError:
+                    pass
         try:
             t.apply(op)
         except ModelError:
@@ -350,6 +367,15 @@ def gen_changeset(rng, tree: TreeModel, classes, swarm, ident, max_ops=None, all
         op = ["mkfile", _fresh_name(rng, t, "", NAMES, ".py")]
         t.apply(op)
         ops.append(op)
+    if not failed and not allow_bad and rng.random() < swarm.get("ignored_p", 0.0):
+        # an ordinary change set that also touches an ignored resource (recorded like any other);
+        # the name is unique to this change set so it cannot collide with unmodelled ignored files
+        op = ["mkfile", "mix%d.py~" % ident]
+        try:
+            t.apply(op)
+            ops.insert(rng.randint(0, len(ops)), op)
+        except ModelError:
+            pass
     rec = {"id": ident, "desc": "cs%d" % ident, "ops": ops}
     if not failed:
         classes.clear()
